@@ -2,7 +2,7 @@
    Model-level characterisations; spec_C13 states all operations (child_nodes, modifier filter,
    unions, category counts, aggregated IC) against the observation and is evaluated on the crate. *)
 From Coq Require Import Sorted.
-From HpoV Require Import Model.Base Model.Group Model.Onto Model.Query Model.HSet Proofs.C13P Proofs.C13U.
+From HpoV Require Import Model.Base Model.Group Model.Onto Model.Query Model.HSet Proofs.C13P Proofs.C13U Proofs.ClosureP Proofs.C13T.
 
 Theorem C13_without_obsolete : forall o s r, hs_without_obsolete o s = Ok r ->
   StronglySorted N.lt r /\
@@ -55,6 +55,14 @@ Theorem C13_category_counts : forall o s r, hs_categories o s = Ok r ->
                                n = Nlen (filter (N.eqb c) (concat (map (categories o) ts))).
 Proof. exact categories_count_spec. Qed.
 
+(* TOTALITY: on a set whose members are terms of the ontology every HpoSet operation returns (none of the
+   expect("HpoTermId must be in Ontology") calls panics) *)
+Theorem C13_operations_return : forall o, wf_ar (o_arena o) -> forall s, (forall x, In x s -> In x (ar_keys (o_arena o))) ->
+  (exists r, hs_child_nodes o s = Ok r) /\ (exists r, hs_without_modifier o s = Ok r) /\
+  (exists r, hs_without_obsolete o s = Ok r) /\ (exists r, hs_with_replaced o s = Ok r) /\
+  (forall k, exists r, hs_annot_ids k o s = Ok r) /\ (exists r, hs_categories o s = Ok r).
+Proof. exact hs_operations_return. Qed.
+
 Print Assumptions C13_without_obsolete.
 Print Assumptions C13_with_replaced_obsolete.
 Print Assumptions C13_in_place_equals_copying.
@@ -63,3 +71,4 @@ Print Assumptions C13_without_modifier.
 Print Assumptions C13_annotation_ids_are_the_union.
 Print Assumptions C13_information_content_of_the_union.
 Print Assumptions C13_category_counts.
+Print Assumptions C13_operations_return.
